@@ -142,8 +142,7 @@ sync_api!(crate::locks::Pl);
 sync_api!(crate::locks::Spin);
 
 pub struct TimerCore<M: RawMutex + 'static> {
-    clock: &'static MockClock,
-    svc: &'static GenericTimerService<M>,
+    owners: (crate::util::Leaked<MockClock>, crate::util::Leaked<GenericTimerService<M>>),
     sync_api: bool,
     bounded: bool,
     now: u64,
@@ -163,7 +162,7 @@ impl<M: SyncApi + LockName> TimerCore<M> {
     fn post(&mut self, ctx: &mut Ctx) {
         let mut regs = vec![];
         self.slots.regs(&mut regs);
-        let svc = self.svc;
+        let svc: &'static GenericTimerService<M> = self.owners.1.get();
         let slots = &self.slots;
         self.view = inspect_and_check(ctx, Shape::Heap, regs, &mut |v| svc.verif_inspect(v), &mut |r| slots.node_info(r.slot as usize));
         // next_expiration() == min deadline of registered, not expired, live futures
@@ -174,7 +173,7 @@ impl<M: SyncApi + LockName> TimerCore<M> {
             });
         }
         // exactly the registered futures are in the heap
-        if self.view.ok {
+        if self.view.ok && crate::slots::inspect_on() {
             for i in 0..self.slots.v.len() {
                 if self.slots.v[i].live() {
                     let q = self.view.queued(0, i as u8).is_some();
@@ -237,11 +236,13 @@ impl<M: SyncApi + LockName> TimerCore<M> {
 
 impl<M: SyncApi + LockName> Core for TimerCore<M> {
     fn new(cfg: &str, k: usize, bounded: bool) -> Self {
-        let clock: &'static MockClock = Box::leak(Box::new(MockClock::new()));
-        let svc: &'static GenericTimerService<M> = Box::leak(Box::new(GenericTimerService::new(clock)));
+        let oc = crate::util::Leaked::new(MockClock::new());
+        let clock: &'static MockClock = oc.get();
+        let os = crate::util::Leaked::new(GenericTimerService::new(clock));
+        let svc: &'static GenericTimerService<M> = os.get();
+        let _ = svc;
         let mut c = TimerCore {
-            clock,
-            svc,
+            owners: (oc, os),
             sync_api: cfg_get(cfg, "api") == Some("sync"),
             bounded,
             now: 0,
@@ -314,7 +315,7 @@ impl<M: SyncApi + LockName> Core for TimerCore<M> {
 
     fn step(&mut self, ev: Ev, ctx: &mut Ctx) {
         let a = ev.a as usize;
-        let svc = self.svc;
+        let svc: &'static GenericTimerService<M> = self.owners.1.get();
         match ev.k {
             CREATE => {
                 let t = DEADLINES[ev.b as usize];
@@ -372,7 +373,7 @@ impl<M: SyncApi + LockName> Core for TimerCore<M> {
             }
             ADVANCE => {
                 self.now += STEPS[a];
-                self.clock.set_time(self.now);
+                self.owners.0.get().set_time(self.now);
             }
             CHECK => {
                 let due: Vec<usize> = (0..self.slots.v.len()).filter(|i| self.registered(*i) && self.slots.v[*i].arg <= self.now).collect();
@@ -430,11 +431,11 @@ impl<M: SyncApi + LockName> Core for TimerCore<M> {
         }
         self.post(ctx);
         let empty = self.view.queues[0].is_empty() && self.view.prim.head == 0;
-        ctx.check("C01", "queue-empty-after-all-futures-dropped", true, empty, || "timer heap not empty at the end of the history".into());
+        ctx.check("C01", "queue-empty-after-all-futures-dropped", crate::slots::inspect_on(), empty, || "timer heap not empty at the end of the history".into());
         // Safety: nothing borrows the service / the clock any more
         unsafe {
-            drop(Box::from_raw(self.svc as *const _ as *mut GenericTimerService<M>));
-            drop(Box::from_raw(self.clock as *const _ as *mut MockClock));
+            self.owners.1.reclaim();
+            self.owners.0.reclaim();
         }
     }
 }
